@@ -9,6 +9,7 @@ the same for every partition and equal to what was sent.
 from __future__ import annotations
 
 import itertools
+import time
 
 from lib import gen, wire
 
@@ -20,7 +21,7 @@ RULE = ("(A) after SECS-I blocks were coded in the same process: random E37 head
         "partitions of a 3-frame stream, header-straddling and random cuts; distinct by (stream bytes, partition); "
         "non-trivial when the partition cuts inside a frame or puts several frames in one segment; (C) streams of 1-6 data "
         "frames whose lengths straddle the TCP receiver's read size (1023/1024/1025, multiples of 1024, 64 KiB) written to a "
-        "real loopback socket in one write / per frame / in 1024-byte chunks / at random cuts, with and without pauses; (D) single frames arriving in two segments microseconds apart with nothing after them, under seeded yield injection on the protocol files (hand-over between receiving and framing thread)")
+        "real loopback socket in one write / per frame / in 1024-byte chunks / at random cuts, with and without pauses; (D) single frames arriving in two segments microseconds apart with nothing after them, under seeded yield injection on the protocol files (hand-over between receiving and framing thread); frames that repeat the header of the frame before them (system bytes included); frames cut in two after quiet periods longer than a short T8")
 ASSUMPTIONS = ["lib/wire.py implements the E37 frame layout", "the in-memory connection delivers segments exactly as "
                "TcpConnection's receiver thread would (one on_data call per segment, same thread)",
                "data frames use catalogued header-only functions so that body content is irrelevant to decoding"]
@@ -33,7 +34,8 @@ SHARDS = {"quick": 8, "thorough": 16}
 TIMEOUT = {"quick": 300, "thorough": 3000}
 FLOORS = {"oracle.frame_codec": 2000, "oracle.partition": 300, "cut.in_length": 20, "cut.in_header": 20, "cut.in_body": 20,
           "partition.coalesced": 20, "enumerated.two_cut": 1000, "oracle.socket_stream": 100,
-          "socket.frame_length_multiple_of_receiver_read_size": 30}
+          "socket.frame_length_multiple_of_receiver_read_size": 30,
+          "oracle.frames_after_a_pause_longer_than_T8": 16, "stream.frames_repeating_the_previous_header": 200}
 
 HEADER_ONLY = None
 
@@ -124,8 +126,16 @@ class Session:
         """spec: list of ('data', (S,F), wbit, body) | ('linktest',) -> (bytes, expectations, frame boundaries)."""
         out = bytearray()
         expect_msgs, expect_rsp, bounds = [], [], []
+        system = None
         for item in spec:
-            system = next(self.sysgen)
+            # ('twin', item): the same header as the frame before it (system bytes included), e.g. unsolicited messages of a peer
+            # that does not count its system bytes, or its Linktest requests with constant system bytes: still one frame each
+            twin = item[0] == "twin"
+            if twin:
+                item = item[1]
+                self.ctx.count("stream.frames_repeating_the_previous_header")
+            if not twin or system is None:
+                system = next(self.sysgen)
             if item[0] == "data":
                 (s, f), wbit, body = item[1], item[2], item[3]
                 fr = wire.hsms_data(s, f, wbit, system, body, session=0)
@@ -207,6 +217,9 @@ def _random_spec(rng, big=False):
             if big and rng.random() < 0.15:
                 blen = (1 << 20) + 1
             spec.append(("data", rng.choice(ho), rng.random() < 0.5, rng.randbytes(blen)))
+        if rng.random() < 0.12:
+            prev = spec[-1]
+            spec.append(("twin", prev if prev[0] == "linktest" or rng.random() < 0.3 else ("data", prev[1], prev[2], rng.randbytes(rng.choice([0, 1, 5, 300])))))
     return spec
 
 
@@ -259,7 +272,7 @@ def _part_b(ctx):
             nt = _classify(ctx, segs, bounds)
             ctx.case(("stream", si, kind, tuple(cuts) if cuts else tuple(segs[:50]), len(data)), nontrivial=nt)
             if not sent_sample and kind == "random":
-                ctx.sample({"stream": [s[0] if s[0] == "linktest" else f"S{s[1][0]}F{s[1][1]}{'W' if s[2] else ''} body {len(s[3])}" for s in spec],
+                ctx.sample({"stream": [s[0] if s[0] in ("linktest", "twin") else f"S{s[1][0]}F{s[1][1]}{'W' if s[2] else ''} body {len(s[3])}" for s in spec],
                             "segments": segs[:20]})
                 sent_sample = True
             if not sess.deliver(data, segs, em, er, kind if not cuts else f"cut@{cuts}", bounds):
@@ -435,9 +448,53 @@ def _part_c(ctx, nstreams):
                 pass
 
 
+def _part_e(ctx, rounds):
+    """Pauses between frames. The session is configured with a short T8 (the time allowed between two characters *of one
+    message*); frames are cut at a random offset with both parts right behind each other, and the line is quiet for more than T8
+    between one frame and the next. No character of a message is late, so every frame is delivered."""
+    from lib.hsmsrig import Rig
+
+    rng = ctx.rng
+    t8 = 0.25
+    rig = Rig(active=False, t8=t8)
+    try:
+        if not rig.connect_and_select():
+            ctx.violation("cannot-select", {"frames": [f.describe() for f in rig.pipe.frames()], "state": rig.state, "t8": t8})
+            return
+        ho = _header_only()
+        sysgen = gen.system_bytes(rng, 0x52000, p=0.02)
+        sent = []
+        for r in range(rounds):
+            system = next(sysgen)
+            s_f = rng.choice(ho)
+            body = rng.randbytes(rng.choice([0, 3, 40, 600]))
+            fr = wire.hsms_data(s_f[0], s_f[1], False, system, body, session=0)
+            cut = rng.randint(1, len(fr) - 1)
+            before = len(rig.delivered)
+            rig.pipe.feed(fr[:cut])
+            time.sleep(rng.choice([0.0, 0.01, 0.05]))      # well below T8
+            rig.pipe.feed(fr[cut:])
+            sent.append((system, s_f[0], s_f[1], body))
+            ctx.count("oracle.frames_after_a_pause_longer_than_T8")
+            ctx.case(("pause", r, cut, len(fr)), nontrivial=True)
+            if not rig.wait(lambda: len(rig.delivered) > before, timeout=10.0):
+                rig.confirm_absent(lambda: len(rig.delivered) > before)
+            got = [(m["system"], m["stream"], m["function"], m["body"]) for m in rig.delivered]
+            if got != sent:
+                ctx.violation("frame-after-a-quiet-period-not-delivered", {
+                    "t8": t8, "round": r, "cut_at": cut, "frame_len": len(fr), "quiet_before_s": 0 if r == 0 else round(t8 * 1.8, 2),
+                    "sent": [(hex(x[0]), f"S{x[1]}F{x[2]}", len(x[3])) for x in sent][-4:],
+                    "delivered": [(hex(x[0]), f"S{x[1]}F{x[2]}", len(x[3])) for x in got][-4:], "state": rig.state})
+                return
+            time.sleep(t8 * 1.8)                            # the line is quiet for longer than T8
+    finally:
+        rig.close()
+
+
 def run(ctx):
     from lib import vtime
     vtime.install()   # the protocol's 30 s linktest timer must not fire in the middle of a long session
+    _part_e(ctx, 4 if ctx.quick else 40)
     _part_a(ctx, 600 if ctx.quick else 6000)
     _part_b(ctx)
     _part_c(ctx, 25 if ctx.quick else 600)
